@@ -40,6 +40,7 @@ type nondetRec struct {
 	Lo   int64
 	Hi   int64
 	Const string // concrete inputs (kept so the native vector stays aligned)
+	Doc   *Doc   // arbitrary document (rendered from the model for replay)
 }
 
 type Stats struct {
@@ -709,6 +710,10 @@ func (e *Engine) modelInputs() []InputVal {
 	}
 	k := 0
 	for _, r := range recs {
+		if r.Doc != nil {
+			out = append(out, InputVal{Name: r.Name, Kind: r.Kind, Tag: r.Tag, Val: e.renderDoc(r.Doc)})
+			continue
+		}
 		if r.T == nil {
 			out = append(out, InputVal{Name: r.Name, Kind: r.Kind, Tag: r.Tag, Val: r.Const})
 			continue
